@@ -27,6 +27,14 @@ def run(tier, seed, jobs):
     for p in lims:
         configs.append({"mod": MOD, "cls": "LimModel", "params": p, "opts": o,
                         "max_depth": 6 if tier == "quick" else 9})
+    # primitives instantiated outside of any event loop (lazy adapters)
+    for v, m, f in ([(1, 1, False)] if tier == "quick" else [(1, 1, False), (1, 2, True), (0, 1, False)]):
+        configs.append({"mod": MOD, "cls": "SemModel",
+                        "params": {"n": 2, "value": v, "max": m, "fast": f, "adapter": True},
+                        "opts": o})
+    configs.append({"mod": MOD, "cls": "LimModel",
+                    "params": dict(n=2, total=1, totals=[1, 2], foreign=True, adapter=True),
+                    "opts": o, "max_depth": 5 if tier == "quick" else 8})
     cov, viol = run_models(configs, jobs, signature)
     cov["rule"] = (
         "states = canonical quiescent states of the real Semaphore / CapacityLimiter shared by "
